@@ -215,6 +215,10 @@ func (h *host) getCPUPlans(cpuRequest float64) []types.CPUMap {
 	}
 
 	if fragment == 0 {
+		if full == 0 {
+			// the request rounds to zero pieces: there is nothing to plan, and planning zero cores would never end
+			return nil
+		}
 		return h.getFullCPUPlans(h.fullCores, full)
 	}
 
